@@ -79,6 +79,11 @@ HISTORY = {
     "C16-8": "caught as built (all flag combinations on all six presets)",
     "C17-8": "missed before the fourth round's generator change was made (no step of exactly +-0 met a non-finite entry); caught by the bit-exact tie afterwards",
     "C18-8": "missed before the direct ESH audit was widened beyond delta = 709 (exp overflow); caught with a failing input afterwards",
+    "C02-9": "fifth round: caught as built (forward/backward oracle; rank-0 updates with a non-zero shift were added after C08-7)",
+    "C07-9": "fifth round: caught as built by the last-trial oracle of the search tie",
+    "C10-9": "fifth round: missed at first (flow presets were not among the protocol cases, and no case combined several chains, identical starts and a non-random density with enough draws): flow presets and a per-preset corpus with identical starts added",
+    "C16-10": "fifth round: caught as built",
+    "C18-10": "fifth round: missed at first (step sizes, lengths and subsample frequencies were such that f*round(L/eps) and round(f*L/eps) agreed): non-dyadic values added",
     "C14-8": "missed by C14 at first (its cases never flushed in the middle of a run; C15 caught it): flushes at random steps added to the C14 cases",
 }
 
